@@ -27,11 +27,13 @@ type C04Scenario struct {
 
 func (C04) ID() string { return "C04" }
 func (C04) Rule() string {
-	return "layer histories as operation batches on a stateful store: 1-5 real layers + 0-3 empty history entries in any arrangement (valid, missing or inconsistent histories) over a universe of <=10 paths of depth <=4 on the alphabet {a,b,c,x,y}; per layer 0-6 operations: regular file (content tagged with layer and path), directory, symlink (absolute or relative target inside the root), whiteout of a file or of a directory at any height above existing files, opaque marker, non-directory replacing a directory and vice versa, whiteout + re-create in one layer; explicit parent-directory entries for all / some / no entries; names bare, './'-prefixed or absolute, directories with or without trailing slash; stream order parent-first or a seeded permutation; stream chunking seeded; requirer all / explicit path list / none; loaded through FromV1Image (simulated v1.Image) or FromTarball (real docker-save tarball). Oracle: RefOverlay(D) - OCI overlay reference model with named deviations; every chain-layer view is compared by recursive ReadDir walk AND by direct Stat/Open of every universe path and every whiteout spelling of it; UnpackSquashed into the sandbox vs the final view; requirer law against the fully loaded views. evaluation = one scenario (1-2 image loads + 1 squashed unpack, all views); non-trivial = at least one deletion (whiteout, opaque marker, or type change of an existing path) takes effect on an existing entry; distinct = distinct scenario JSON"
+	return "layer histories as operation batches on a stateful store: 1-5 real layers + 0-3 empty history entries in any arrangement (valid, missing or inconsistent histories) over a universe of <=10 paths of depth <=4 on the alphabet {a,b,c,x,y}; per layer 0-6 operations: regular file (content tagged with layer and path), directory, symlink (absolute or relative target inside the root), whiteout of a file or of a directory at any height above existing files, opaque marker, non-directory replacing a directory and vice versa, whiteout + re-create in one layer; explicit parent-directory entries for all / some / no entries; names bare, './'-prefixed or absolute, directories with or without trailing slash; stream order parent-first or a seeded permutation; stream chunking seeded; requirer all / explicit path list / none; 1 in 8 scenarios with MaxFileBytes in {8,10,12} so that some files are skipped by the loader, 1 in 12 symlinks with a target outside the root (also skipped): skipped entries are modelled as absent from their layer; names that are string prefixes of sibling names (a / ab / a-); loaded through FromV1Image (simulated v1.Image) or FromTarball (real docker-save tarball). Oracle: RefOverlay(D) - OCI overlay reference model with named deviations; every chain-layer view is compared by recursive ReadDir walk AND by direct Stat/Open of every universe path and every whiteout spelling of it; UnpackSquashed into the sandbox vs the final view; requirer law against the fully loaded views. evaluation = one scenario (1-2 image loads + 1 squashed unpack, all views); non-trivial = at least one deletion (whiteout, opaque marker, or type change of an existing path) takes effect on an existing entry; distinct = distinct scenario JSON"
 }
 
-var c04Segs = []string{"a", "b", "c"}
-var c04Leaf = []string{"a", "b", "c", "x", "y"}
+// names include string prefixes of each other (a / ab / a-) - siblings are told apart by path
+// component, not by string prefix
+var c04Segs = []string{"a", "b", "c", "a", "b", "ab"}
+var c04Leaf = []string{"a", "b", "c", "x", "y", "ab", "a-"}
 
 func genUniverse(rt *rapid.T) []string {
 	n := rapid.IntRange(3, 10).Draw(rt, "universe")
@@ -174,6 +176,10 @@ func (C04) Gen(rt *rapid.T, tier string) any {
 				if rapid.Bool().Draw(rt, "relative") {
 					e.Target = relTarget(p, t)
 				}
+				if rapid.IntRange(0, 11).Draw(rt, "escaping") == 0 {
+					// leaves the root: the loader skips such an entry
+					e.Target = strings.Repeat("../", depth(p)) + "x"
+				}
 				add(e)
 			case "w":
 				add(Entry{Kind: "w", Path: p})
@@ -204,6 +210,10 @@ func (C04) Gen(rt *rapid.T, tier string) any {
 	}
 	sc.Load.Via = rapid.SampledFrom([]string{"v1", "v1", "v1", "v1", "tarball"}).Draw(rt, "via")
 	genHistory(rt, &sc.Image, nl, sc.Load.Via == "v1")
+	if rapid.IntRange(0, 7).Draw(rt, "sizelimit") == 0 {
+		// some files are at or above the per-file limit: the loader skips them
+		sc.Load.MaxFileBytes = int64(rapid.SampledFrom([]int{8, 10, 12}).Draw(rt, "max_file_bytes"))
+	}
 	sc.Load.Requirer = rapid.SampledFrom([]string{"all", "all", "all", "paths", "paths", "none"}).Draw(rt, "requirer")
 	if sc.Load.Requirer == "paths" {
 		for _, p := range cands {
@@ -219,6 +229,38 @@ func (C04) Decode(raw json.RawMessage) (any, error) {
 	var s C04Scenario
 	err := json.Unmarshal(raw, &s)
 	return &s, err
+}
+
+func countEntries(s *ImageSpec) int {
+	n := 0
+	for _, l := range s.Layers {
+		n += len(l.Entries)
+	}
+	return n
+}
+
+// effectiveSpec drops the entries the loader ignores by design.
+func effectiveSpec(s *ImageSpec, maxFileBytes int64) *ImageSpec {
+	out := *s
+	out.Layers = nil
+	for _, l := range s.Layers {
+		nl := l
+		nl.Entries = nil
+		for i := range l.Entries {
+			e := l.Entries[i]
+			if e.Kind == "f" && maxFileBytes > 0 && int64(len(e.Content())) >= maxFileBytes {
+				continue
+			}
+			if e.Kind == "l" && e.Target != "" && !strings.HasPrefix(e.Target, "/") {
+				if _, ok := linkTarget(e.Path, e.Target); !ok {
+					continue
+				}
+			}
+			nl.Entries = append(nl.Entries, e)
+		}
+		out.Layers = append(out.Layers, nl)
+	}
+	return &out
 }
 
 func whiteoutSpelling(p string) string {
@@ -277,17 +319,24 @@ func sameModel(a, b map[string]MNode) string {
 func (C04) Run(t *testing.T, scAny any) *sim.Outcome {
 	sc := scAny.(*C04Scenario)
 	out := &sim.Outcome{Executions: 1}
-	ctxs := fmt.Sprintf("via=%s requirer=%s%v %s", sc.Load.Via, sc.Load.Requirer, sc.Load.Paths, sc.Image.String())
+	ctxs := fmt.Sprintf("via=%s requirer=%s%v maxbytes=%d %s", sc.Load.Via, sc.Load.Requirer, sc.Load.Paths, sc.Load.MaxFileBytes, sc.Image.String())
 	out.Sample = ctxs
 	if len(sc.Image.Layers) == 0 {
 		return out
+	}
+	// Entries the loader is documented to ignore (size at or above MaxFileBytes, symlink target
+	// outside the root) are not part of the loaded image: the model sees the layers without them.
+	loaded := sc
+	sc = &C04Scenario{Image: *effectiveSpec(&loaded.Image, loaded.Load.MaxFileBytes), Universe: loaded.Universe, Load: loaded.Load}
+	if n := countEntries(&loaded.Image) - countEntries(&sc.Image); n > 0 {
+		out.Count("entries_ignored_by_the_loader", int64(n))
 	}
 	if why := Ambiguous(&sc.Image); why != "" {
 		out.Count("skipped_outside_statement", 1)
 		return out
 	}
 	plan := ChainPlan(&sc.Image)
-	probes := c04Probes(sc)
+	probes := c04Probes(loaded)
 
 	// model self-check and non-triviality
 	var upto [][]int
@@ -331,7 +380,7 @@ func (C04) Run(t *testing.T, scAny any) *sim.Outcome {
 
 	full := sc.Load
 	full.Requirer, full.Paths = "all", nil
-	img, _, err := Load(sb, &sc.Image, full)
+	img, _, err := Load(sb, &loaded.Image, full)
 	if err != nil {
 		if strings.HasPrefix(err.Error(), "harness:") {
 			panic(err.Error())
@@ -376,6 +425,19 @@ func (C04) Run(t *testing.T, scAny any) *sim.Outcome {
 				break
 			}
 		}
+		if found == nil && os.Getenv("VERIF_DEBUG") != "" {
+			all := DevSet{}
+			for _, k := range AllDeviations {
+				if k != DevAbs {
+					all[k] = true
+				}
+			}
+			for i := range views {
+				for _, m := range CompareView(views[i], RefOverlay(&sc.Image, upto[i], all, i == len(plan)-1), probes) {
+					fmt.Printf("DEBUG vs all deviations: view %d: %s\n", i, m.Text)
+				}
+			}
+		}
 		if found != nil {
 			key := "overlay-deviation:" + found.Key()
 			out.Violate(key, key, "the views are not the OCI overlay of the layers; they are what the reference model gives with the deviation(s) [%s] switched on. First differences from the OCI overlay: %s; %s", found.Key(), strings.Join(firstDiff, " | "), ctxs)
@@ -392,23 +454,36 @@ func (C04) Run(t *testing.T, scAny any) *sim.Outcome {
 	// (5) requirer law, against the actual fully loaded views
 	if sc.Load.Requirer == "paths" || sc.Load.Requirer == "none" {
 		out.Executions++
-		rimg, _, err := Load(sb, &sc.Image, sc.Load)
+		rimg, _, err := Load(sb, &loaded.Image, sc.Load)
 		if err != nil {
 			out.Violate("load-failed", "load-failed:requirer", "loading with requirer %s failed: %v; %s", sc.Load.Requirer, err, ctxs)
 		} else {
 			rviews, _ := ObserveImage(rimg, probes)
 			rimg.CleanUp()
-			checkRequirerLaw(out, sc, views, rviews, ctxs)
+			// the model views that explain the full load (for entries no lookup can see: dangling links
+			// below a non-directory)
+			explained := make([]*ModelView, len(views))
+			allDev := DevSet{}
+			for _, k := range AllDeviations {
+				allDev[k] = k != DevAbs
+			}
+			for i := range views {
+				explained[i] = RefOverlay(&sc.Image, upto[i], allDev, i == len(plan)-1)
+			}
+			checkRequirerLaw(out, sc, views, rviews, explained, ctxs)
 		}
 	}
 
-	// (4) squashed unpack vs final view
-	out.Executions++
-	checkSquashed(out, sc, sb, views[len(views)-1], strict[len(strict)-1], ctxs)
+	// (4) squashed unpack vs final view (the unpacker has no per-file limit configured, so only
+	// without a size limit on the load)
+	if sc.Load.MaxFileBytes == 0 {
+		out.Executions++
+		checkSquashed(out, sc, sb, views[len(views)-1], strict[len(strict)-1], ctxs)
+	}
 	return out
 }
 
-func checkRequirerLaw(out *sim.Outcome, sc *C04Scenario, full, restr []*ViewObs, ctxs string) {
+func checkRequirerLaw(out *sim.Outcome, sc *C04Scenario, full, restr []*ViewObs, explained []*ModelView, ctxs string) {
 	if len(full) != len(restr) {
 		out.Violate("requirer-law", "requirer-law:chain-count", "restricted load has %d views, full load %d; %s", len(restr), len(full), ctxs)
 		return
@@ -419,19 +494,39 @@ func checkRequirerLaw(out *sim.Outcome, sc *C04Scenario, full, restr []*ViewObs,
 			required[p] = true
 		}
 	}
-	// protected: targets (transitively) of symlink entries at required paths - an over-approximation
-	// of "targets of required symlinks"
-	protected := map[string]bool{}
+	// Targets of required symlinks.  mayKeep over-approximates them from every symlink entry of the
+	// history (nothing in it is ever reported as wrongly present); mustKeep is certain: the newest
+	// entry for the path is a symlink and the fully loaded final view lists it as one.
+	newest := map[string]*Entry{}
+	for li := len(sc.Image.Layers) - 1; li >= 0; li-- {
+		l := &sc.Image.Layers[li]
+		for i := range l.Entries {
+			if e := &l.Entries[i]; e.Kind != "w" && e.Kind != "o" && newest[e.Path] == nil {
+				newest[e.Path] = e
+			}
+		}
+	}
+	finalFull := full[len(full)-1]
+	protected, mustKeep := map[string]bool{}, map[string]bool{}
 	for changed := true; changed; {
 		changed = false
 		for _, l := range sc.Image.Layers {
 			for i := range l.Entries {
 				e := &l.Entries[i]
-				if e.Kind == "l" && (required[e.Path] || protected[e.Path]) {
-					if t, ok := linkTarget(e.Path, e.Target); ok && !protected[t] {
-						protected[t] = true
-						changed = true
-					}
+				if e.Kind != "l" {
+					continue
+				}
+				t, ok := linkTarget(e.Path, e.Target)
+				if !ok {
+					continue
+				}
+				if (required[e.Path] || protected[e.Path]) && !protected[t] {
+					protected[t] = true
+					changed = true
+				}
+				if (required[e.Path] || mustKeep[e.Path]) && !mustKeep[t] && newest[e.Path] == e && finalFull.Walk[e.Path].Type == "l" {
+					mustKeep[t] = true
+					changed = true
 				}
 			}
 		}
@@ -445,7 +540,8 @@ func checkRequirerLaw(out *sim.Outcome, sc *C04Scenario, full, restr []*ViewObs,
 			}
 			return f.Look[p].Type
 		}
-		mayDrop := func(p string) bool { return !required[p] && !protected[p] && ownType(p) != "d" }
+		mayDrop := func(p string) bool { return !required[p] && !mustKeep[p] && ownType(p) != "d" }
+		mustDrop := func(p string) bool { return !required[p] && !protected[p] && ownType(p) != "d" }
 		hasKid := func(p string) bool {
 			for q := range r.Walk {
 				if isUnder(q, p) {
@@ -468,12 +564,14 @@ func checkRequirerLaw(out *sim.Outcome, sc *C04Scenario, full, restr []*ViewObs,
 			_, kept := r.Walk[p]
 			switch {
 			case kept:
-				if i == last && mayDrop(p) {
+				if i == last && mustDrop(p) {
 					out.Violate("requirer-law", "requirer-law:non-required-present", "final view: %s is not required (nor the target of a required symlink) but is still listed; %s", p, ctxs)
 				}
 			case mayDrop(p):
 			case ownType(p) == "d" && i == last && depth(p) >= 2 && !hasKid(p):
 				out.Violate("requirer-law:empty-dir-pruned", "requirer-law:empty-dir-pruned", "final view: directory %s is absent once the requirer dropped its non-required contents (only non-required FILES may be absent); %s", p, ctxs)
+			case orphanBelow(f, explained[i], p):
+				out.Violate("requirer-law:required-lost-with-lookup-only-child", "requirer-law:required-lost-with-lookup-only-child", "view %d: %s (%s) is required (or the target of a required symlink) but is gone with the requirer; fully loaded, entries that the overlay should have hidden are still found by direct lookup below it, and dropping those took %s along; %s", i, p, f.Walk[p], p, ctxs)
 			default:
 				out.Violate("requirer-law", "requirer-law:required-missing", "view %d: %s (%s) is required, a directory, or the target of a required symlink, but is not listed with the requirer; %s", i, p, f.Walk[p], ctxs)
 			}
@@ -481,13 +579,17 @@ func checkRequirerLaw(out *sim.Outcome, sc *C04Scenario, full, restr []*ViewObs,
 		for _, p := range sortedKeys(f.Look) {
 			fn, rn := f.Look[p], r.Look[p]
 			if rn == fn {
-				if i == last && fn.Type != "" && mayDrop(p) {
+				if i == last && fn.Type != "" && mustDrop(p) {
 					out.Violate("requirer-law", "requirer-law:non-required-present", "final view: %s is not required but is still found by direct lookup; %s", p, ctxs)
 				}
 				continue
 			}
-			if i != last && mayDrop(p) && unreadable(fn, rn) {
-				continue // reported from the walk
+			_, listed := f.Walk[p]
+			if i != last && unreadable(fn, rn) && !(required[p] && listed && ownType(p) == "f") {
+				// a file whose backing file the final view's pruning deleted, seen directly, through a
+				// symlink, or as a lookup-only entry
+				out.Violate("requirer-law:non-required-listed-but-unreadable", "requirer-law:non-required-listed-but-unreadable", "view %d (not the final one): lookup of %s finds a file whose content can no longer be read with the requirer (%s); fully loaded it is %s; %s", i, p, rn, fn, ctxs)
+				continue
 			}
 			if rn.Type != "" {
 				out.Violate("requirer-law", "requirer-law:added-or-changed", "view %d: with the requirer lookup of %s gives %s, fully loaded %s; %s", i, p, rn, fn, ctxs)
@@ -496,15 +598,45 @@ func checkRequirerLaw(out *sim.Outcome, sc *C04Scenario, full, restr []*ViewObs,
 			if mayDrop(p) {
 				continue
 			}
-			if _, listed := f.Walk[p]; !listed && !required[p] {
+			if !listed {
 				continue // found only by lookup in the full load (already a finding of the view check)
 			}
+			if e := newest[p]; ownType(p) == "l" && e != nil && e.Kind == "l" {
+				if t, ok := linkTarget(e.Path, e.Target); ok {
+					tn, tl := f.Walk[t]
+					if !tl {
+						continue // a link to something found only by lookup in the full load
+					}
+					if _, kept := r.Walk[t]; !kept && tn.Type == "d" && i == last && depth(t) >= 2 && !hasKid(t) {
+						continue // a link to a directory that was pruned when it became empty (reported from the walk)
+					}
+				}
+			}
 			if ownType(p) == "d" && i == last && depth(p) >= 2 && !hasKid(p) {
+				continue // reported from the walk
+			}
+			if orphanBelow(f, explained[i], p) {
 				continue // reported from the walk
 			}
 			out.Violate("requirer-law", "requirer-law:required-missing", "view %d: lookup of %s fails with the requirer, fully loaded it is %s; %s", i, p, fn, ctxs)
 		}
 	}
+}
+
+// orphanBelow: in the fully loaded view something below p is found by direct lookup although the
+// walk does not list it.
+func orphanBelow(f *ViewObs, mv *ModelView, p string) bool {
+	for q, n := range f.Look {
+		if _, listed := f.Walk[q]; isUnder(q, p) && n.Type != "" && !listed {
+			return true
+		}
+	}
+	for q := range mv.Look { // e.g. a dangling symlink, which no lookup can see
+		if _, listed := mv.Walk[q]; isUnder(q, p) && !listed {
+			return true
+		}
+	}
+	return false
 }
 
 // checkSquashed: the squashed on-disk unpacking holds the same regular files with the same
